@@ -76,6 +76,13 @@ func (w *world) park() {
 		close(started)
 		_ = w.b.RegisterNode(el.NodeID(fmt.Sprintf("parked-%d", n)), &plain{typ: el.NodeTypeFilter})
 	}()
+	// a second writer, on the per-graph threshold lock (taken under Broker.lock by the setters)
+	w.wg.Add(1)
+	go func() {
+		defer w.wg.Done()
+		_ = w.b.SetSuccessThreshold("outer", 0)
+		_ = w.b.SetSuccessThresholdSinks("inner", 0)
+	}()
 	<-started
 	// give the writer time to reach Lock(): if the lock is held by the caller of this callback the writer is now
 	// queued and every new reader blocks behind it (sync.RWMutex writer preference)
@@ -285,6 +292,31 @@ func runScenario(sc Scenario, watchdog, parkDelay time.Duration) Result {
 				ok = r.step("Send(outer) in flight returns", func() error { <-inflight; return nil })
 			}
 		}
+	case "concurrent-pair":
+		// two operations hammered against each other (lock-order inversions between Broker.lock and a graph's threshold lock,
+		// or between a call and the dispatch, show up as a loop that never finishes)
+		must(b.RegisterNode("fmt2", &plain{typ: el.NodeTypeFormatter}))
+		must(b.RegisterNode("sink2", &plain{typ: el.NodeTypeSink}))
+		must(b.RegisterPipeline(el.Pipeline{PipelineID: "outer", EventType: "outer", NodeIDs: []el.NodeID{"fmt2", "sink2"}}))
+		ops := strings.Split(sc.Op, "|")
+		ok = r.step("loop("+sc.Op+")", func() error {
+			var pw sync.WaitGroup
+			for _, op := range append(ops, ops...) {
+				pw.Add(1)
+				go func(op string) {
+					defer pw.Done()
+					for i := 0; i < 20000; i++ {
+						if op == "Send" {
+							_, _ = b.Send(ctx, "outer", i)
+						} else {
+							_ = otherOp(b, op)
+						}
+					}
+				}(op)
+			}
+			pw.Wait()
+			return nil
+		})
 	case "gated-close", "gated-expire", "gated-flushall":
 		now := time.Unix(1000, 0)
 		var mu sync.Mutex
@@ -416,6 +448,13 @@ func allScenarios(r *hc.Rand, repeat int) []Scenario {
 			for _, op := range []string{"RegisterNode", "RegisterPipeline", "RemovePipeline", "SetSuccessThreshold", "SetSuccessThresholdSinks",
 				"SuccessThreshold", "SuccessThresholdSinks", "IsAnyPipelineRegistered", "Reopen", "RemoveNodeUnknown", "FailingCalls"} {
 				add(Scenario{Kind: "concurrent-op", Op: op, Target: "other", Depth: 2, Parked: parked})
+			}
+			// pairs of operations against each other
+			if !parked {
+				for _, pr := range []string{"SetSuccessThreshold|SuccessThreshold", "SetSuccessThresholdSinks|SuccessThresholdSinks", "Send|SetSuccessThreshold",
+					"Send|SetSuccessThresholdSinks|SuccessThreshold", "Send|RegisterPipeline|IsAnyPipelineRegistered", "Reopen|RegisterNode|Send"} {
+					add(Scenario{Kind: "concurrent-pair", Op: pr, Target: "other"})
+				}
 			}
 			// the gated filter wired to the same broker with 0..3 pending groups
 			for g := 0; g <= 3; g++ {
